@@ -266,10 +266,32 @@ class GraphInitializers(collections.UserDict[str, "_core.Value"]):
         if kwargs:
             data.update(kwargs)
         self._graph = graph
-        for value in data.values():
-            self._set_graph(value)
+        # Validate every item before taking ownership of any of them
+        for key, value in data.items():
+            self._check_item(key, value)
 
         super().__init__(data)
+
+    def _check_item(self, key: str, value: _core.Value) -> None:
+        """Raise if ``self[key] = value`` would be rejected. Must not modify anything."""
+        if not isinstance(value, _core.Value):
+            raise TypeError(f"value must be a Value object, not {type(value)}")
+        if not isinstance(key, str):
+            raise TypeError(f"Value name must be a string, not {type(key)}")
+        if key == "":
+            raise ValueError("Value name cannot be an empty string")
+        if value.name and key != value.name:
+            raise ValueError(
+                f"Key '{key}' does not match the name of the value '{value.name}'. Please use the value.name as the key."
+            )
+        if value.producer() is not None:
+            raise ValueError(
+                f"Value '{value}' is produced by a node and cannot be a graph initializer"
+            )
+        if value._graph is not None and value._graph is not self._graph:
+            raise ValueError(
+                f"Value '{value}' is already an initializer of a different graph. Please remove the value from the previous graph first"
+            )
 
     def _set_graph(self, value: _core.Value) -> None:
         """Set the graph for the value."""
@@ -291,29 +313,16 @@ class GraphInitializers(collections.UserDict[str, "_core.Value"]):
 
     def __setitem__(self, key: str, value: _core.Value) -> None:
         """Set an initializer for the graph."""
-        if not isinstance(value, _core.Value):
-            raise TypeError(f"value must be a Value object, not {type(value)}")
-        if not isinstance(key, str):
-            raise TypeError(f"Value name must be a string, not {type(key)}")
-        if key == "":
-            raise ValueError("Value name cannot be an empty string")
+        # Perform all checks first so that when there is an error neither the
+        # dictionary nor any value is modified
+        self._check_item(key, value)
         if not value.name:
             logger.info("Value %s does not have a name, setting it to '%s'", value, key)
             value.name = key
-        elif key != value.name:
-            raise ValueError(
-                f"Key '{key}' does not match the name of the value '{value.name}'. Please use the value.name as the key."
-            )
-        if value.producer() is not None:
-            raise ValueError(
-                f"Value '{value}' is produced by a node and cannot be a graph initializer"
-            )
         if key in self.data:
             # If the key already exists, unset the old value
             old_value = self.data[key]
             self._maybe_unset_graph(old_value)
-        # Must call _set_graph before super().__setitem__ so that when there is an error,
-        # the dictionary is not modified
         self._set_graph(value)
         super().__setitem__(key, value)
 
